@@ -198,6 +198,27 @@ func notifCanon(frames [][]byte) string {
 	return strings.Join(out, " || ")
 }
 
+type published struct {
+	uri   string
+	diags string // canonical multiset
+}
+
+// publishedDiagnostics extracts the publishDiagnostics notifications of one
+// exchange; other notifications (log messages ...) are none of this property's business.
+func publishedDiagnostics(frames [][]byte) []published {
+	var out []published
+	for _, f := range frames {
+		v, ok := decode(f).(map[string]any)
+		if !ok || v["method"] != "textDocument/publishDiagnostics" {
+			continue
+		}
+		p, _ := v["params"].(map[string]any)
+		uri, _ := p["uri"].(string)
+		out = append(out, published{uri: uri, diags: "[" + strings.Join(sortedList(p["diagnostics"]), ",") + "]"})
+	}
+	return out
+}
+
 // splitFrames parses a captured output stream into message bodies.
 func splitFrames(b []byte) ([][]byte, error) {
 	var out [][]byte
@@ -265,9 +286,11 @@ func genHistory(r *rand.Rand, tier string) Case {
 			latest[u] = d
 			continue
 		}
-		w := []float64{2, 5, 4, 3, 2, 0.7, 0.5, 0.5}
+		// well-formed histories only (the quantifier says so): a document is opened once
+		// (again only after a close), and changed only while open
+		w := []float64{0, 5, 4, 3, 2, 0.7, 0.5, 0.5}
 		if !opened {
-			w = []float64{6, 0.6, 0.5, 0.5, 0.5, 0.7, 0.3, 0}
+			w = []float64{6, 0, 0.5, 0.5, 0.5, 0.7, 0.3, 0}
 		}
 		switch core.Weighted(r, w) {
 		case 0:
@@ -313,12 +336,15 @@ func genHistory(r *rand.Rand, tier string) Case {
 		case 6:
 			c.Msgs = append(c.Msgs, Msg{Kind: "unknown"})
 		default:
-			// re-send the previous notification unchanged
+			// the text of the latest update of some document sent again, as a new change
 			for j := len(c.Msgs) - 1; j >= 0; j-- {
 				if c.Msgs[j].isUpdate() {
-					c.Msgs = append(c.Msgs, c.Msgs[j])
-					d := Doc{Text: c.Msgs[j].latestText(), Spans: c.Msgs[j].Spans, Valid: c.Msgs[j].Valid}
-					latest[c.Msgs[j].URI] = d
+					if _, stillOpen := latest[c.Msgs[j].URI]; !stillOpen {
+						break
+					}
+					d := latest[c.Msgs[j].URI]
+					version[c.Msgs[j].URI]++
+					c.Msgs = append(c.Msgs, Msg{Kind: "change", URI: c.Msgs[j].URI, Texts: []string{d.Text}, Spans: d.Spans, Valid: d.Valid, Ver: version[c.Msgs[j].URI]})
 					break
 				}
 			}
@@ -483,8 +509,12 @@ func Worker(o core.WorkerOpts) *core.Report {
 		case exhNext < exhTotal:
 			// a batch of enumerated histories counts as one loop step
 			for k := 0; k < 200 && exhNext < exhTotal; k++ {
-				ec := exhaustiveCase(alpha, exhLen, exhNext)
+				ec, wellFormed := exhaustiveCase(alpha, exhLen, exhNext)
 				exhNext += workers
+				if !wellFormed {
+					l.Rep.Reach["exhaustive_histories_skipped_ill_formed"]++
+					continue
+				}
 				er := Execute(ec, false, o.Bin)
 				l.Rep.Evaluations += int64(er.Handled)
 				l.Rep.Steps["protocol_messages"] += int64(er.Handled)
@@ -495,6 +525,9 @@ func Worker(o core.WorkerOpts) *core.Report {
 				}
 				if er.Violation != nil && l.ShouldReport(*er.Violation) {
 					fr := Execute(ec, true, o.Bin)
+					if fr.Violation == nil {
+						fr.Violation = er.Violation // did not repeat (state kept across cases): the sequence replay covers it
+					}
 					l.AddReplay(*fr.Violation, caseSeed, ec, nil, fr.Trace.Events, fr.Trace.Hash(), 0, "controlled")
 				}
 			}
@@ -557,10 +590,11 @@ func Worker(o core.WorkerOpts) *core.Report {
 			if fr.Violation == nil {
 				fr = Execute(c, true, o.Bin)
 				min = c
+				if fr.Violation == nil {
+					fr.Violation = &v // did not repeat (state kept across cases): the sequence replay covers it
+				}
 			}
-			if fr.Violation != nil {
-				l.AddReplay(*fr.Violation, caseSeed, min, nil, fr.Trace.Events, fr.Trace.Hash(), used, "controlled")
-			}
+			l.AddReplay(*fr.Violation, caseSeed, min, nil, fr.Trace.Events, fr.Trace.Hash(), used, "controlled")
 		}
 	})
 	l.Rep.SaveHashes(o.OutDir, "nontrivial_cases", distinct)
